@@ -193,13 +193,11 @@ Definition check_C14 (c : case) : Z :=
   end.
 
 (* ---------------------------------------------------------------- C20 *)
-Definition P_DATE_DISPLAY : text := [121;121;121;121;47;77;77;47;100;100].
-Definition P_DT_DISPLAY : text := P_DATE_DISPLAY ++ [32] ++ P_TIME.
 Definition model_ser (kind : Z) (val : list Z) : obs :=
   match kind, val with
-  | 0, [d] => obs_text (date_format d P_DATE_ISO)
-  | 1, [n; o] => obs_text (time_format (mkTM n o) P_TIME)
-  | 2, [d; n; o] => obs_text (dt_format_rfc3339 (mkDT d n o) 0)
+  | 0, [d] => obs_text (date_serialize d)
+  | 1, [n; o] => obs_text (time_serialize (mkTM n o))
+  | 2, [d; n; o] => obs_text (dt_serialize (mkDT d n o))
   | _, _ => OErr 9 [] end.
 Definition check_C20 (c : case) : Z :=
   match c_op c, c_ints c, c_strs c with
